@@ -19,6 +19,9 @@ Booleq/Proofs.vos Booleq/Proofs.vok Booleq/Proofs.required_vos: Booleq/Proofs.v 
 Canon/Model.vo Canon/Model.glob Canon/Model.v.beautified Canon/Model.required_vo: Canon/Model.v 
 Canon/Model.vio: Canon/Model.v 
 Canon/Model.vos Canon/Model.vok Canon/Model.required_vos: Canon/Model.v 
+Canon/SortLemmas.vo Canon/SortLemmas.glob Canon/SortLemmas.v.beautified Canon/SortLemmas.required_vo: Canon/SortLemmas.v Canon/Model.vo
+Canon/SortLemmas.vio: Canon/SortLemmas.v Canon/Model.vio
+Canon/SortLemmas.vos Canon/SortLemmas.vok Canon/SortLemmas.required_vos: Canon/SortLemmas.v Canon/Model.vos
 Conv/Model.vo Conv/Model.glob Conv/Model.v.beautified Conv/Model.required_vo: Conv/Model.v 
 Conv/Model.vio: Conv/Model.v 
 Conv/Model.vos Conv/Model.vok Conv/Model.required_vos: Conv/Model.v 
@@ -70,6 +73,15 @@ Generated/C08_Invalidation.vos Generated/C08_Invalidation.vok Generated/C08_Inva
 Generated/C11_Passes.vo Generated/C11_Passes.glob Generated/C11_Passes.v.beautified Generated/C11_Passes.required_vo: Generated/C11_Passes.v Opt/Syntax.vo
 Generated/C11_Passes.vio: Generated/C11_Passes.v Opt/Syntax.vio
 Generated/C11_Passes.vos Generated/C11_Passes.vok Generated/C11_Passes.required_vos: Generated/C11_Passes.v Opt/Syntax.vos
+Generated/C12_Schema.vo Generated/C12_Schema.glob Generated/C12_Schema.v.beautified Generated/C12_Schema.required_vo: Generated/C12_Schema.v Serial/Model.vo
+Generated/C12_Schema.vio: Generated/C12_Schema.v Serial/Model.vio
+Generated/C12_Schema.vos Generated/C12_Schema.vok Generated/C12_Schema.required_vos: Generated/C12_Schema.v Serial/Model.vos
+Generated/C14_Builtins.vo Generated/C14_Builtins.glob Generated/C14_Builtins.v.beautified Generated/C14_Builtins.required_vo: Generated/C14_Builtins.v Ops/Model.vo
+Generated/C14_Builtins.vio: Generated/C14_Builtins.v Ops/Model.vio
+Generated/C14_Builtins.vos Generated/C14_Builtins.vok Generated/C14_Builtins.required_vos: Generated/C14_Builtins.v Ops/Model.vos
+Generated/C15_Handlers.vo Generated/C15_Handlers.glob Generated/C15_Handlers.v.beautified Generated/C15_Handlers.required_vo: Generated/C15_Handlers.v Io/Model.vo
+Generated/C15_Handlers.vio: Generated/C15_Handlers.v Io/Model.vio
+Generated/C15_Handlers.vos Generated/C15_Handlers.vok Generated/C15_Handlers.required_vos: Generated/C15_Handlers.v Io/Model.vos
 Generated/C16_OpcodeFlags.vo Generated/C16_OpcodeFlags.glob Generated/C16_OpcodeFlags.v.beautified Generated/C16_OpcodeFlags.required_vo: Generated/C16_OpcodeFlags.v 
 Generated/C16_OpcodeFlags.vio: Generated/C16_OpcodeFlags.v 
 Generated/C16_OpcodeFlags.vos Generated/C16_OpcodeFlags.vok Generated/C16_OpcodeFlags.required_vos: Generated/C16_OpcodeFlags.v 
@@ -79,36 +91,72 @@ Io/LineProofs.vos Io/LineProofs.vok Io/LineProofs.required_vos: Io/LineProofs.v 
 Io/Model.vo Io/Model.glob Io/Model.v.beautified Io/Model.required_vo: Io/Model.v 
 Io/Model.vio: Io/Model.v 
 Io/Model.vos Io/Model.vok Io/Model.required_vos: Io/Model.v 
+Io/Proofs.vo Io/Proofs.glob Io/Proofs.v.beautified Io/Proofs.required_vo: Io/Proofs.v Io/Model.vo Generated/C15_Handlers.vo
+Io/Proofs.vio: Io/Proofs.v Io/Model.vio Generated/C15_Handlers.vio
+Io/Proofs.vos Io/Proofs.vok Io/Proofs.required_vos: Io/Proofs.v Io/Model.vos Generated/C15_Handlers.vos
+Match/Model.vo Match/Model.glob Match/Model.v.beautified Match/Model.required_vo: Match/Model.v 
+Match/Model.vio: Match/Model.v 
+Match/Model.vos Match/Model.vok Match/Model.required_vos: Match/Model.v 
 Merge/Model.vo Merge/Model.glob Merge/Model.v.beautified Merge/Model.required_vo: Merge/Model.v 
 Merge/Model.vio: Merge/Model.v 
 Merge/Model.vos Merge/Model.vok Merge/Model.required_vos: Merge/Model.v 
+Merge/Proofs.vo Merge/Proofs.glob Merge/Proofs.v.beautified Merge/Proofs.required_vo: Merge/Proofs.v Merge/Model.vo
+Merge/Proofs.vio: Merge/Proofs.v Merge/Model.vio
+Merge/Proofs.vos Merge/Proofs.vok Merge/Proofs.required_vos: Merge/Proofs.v Merge/Model.vos
 Mro/Model.vo Mro/Model.glob Mro/Model.v.beautified Mro/Model.required_vo: Mro/Model.v 
 Mro/Model.vio: Mro/Model.v 
 Mro/Model.vos Mro/Model.vok Mro/Model.required_vos: Mro/Model.v 
 Mro/Proofs.vo Mro/Proofs.glob Mro/Proofs.v.beautified Mro/Proofs.required_vo: Mro/Proofs.v Mro/Model.vo
 Mro/Proofs.vio: Mro/Proofs.v Mro/Model.vio
 Mro/Proofs.vos Mro/Proofs.vok Mro/Proofs.required_vos: Mro/Proofs.v Mro/Model.vos
+Ops/Model.vo Ops/Model.glob Ops/Model.v.beautified Ops/Model.required_vo: Ops/Model.v 
+Ops/Model.vio: Ops/Model.v 
+Ops/Model.vos Ops/Model.vok Ops/Model.required_vos: Ops/Model.v 
+Ops/Proofs.vo Ops/Proofs.glob Ops/Proofs.v.beautified Ops/Proofs.required_vo: Ops/Proofs.v Ops/Model.vo Generated/C14_Builtins.vo
+Ops/Proofs.vio: Ops/Proofs.v Ops/Model.vio Generated/C14_Builtins.vio
+Ops/Proofs.vos Ops/Proofs.vok Ops/Proofs.required_vos: Ops/Proofs.v Ops/Model.vos Generated/C14_Builtins.vos
 Opt/Model.vo Opt/Model.glob Opt/Model.v.beautified Opt/Model.required_vo: Opt/Model.v Opt/Syntax.vo Generated/C11_Passes.vo
 Opt/Model.vio: Opt/Model.v Opt/Syntax.vio Generated/C11_Passes.vio
 Opt/Model.vos Opt/Model.vok Opt/Model.required_vos: Opt/Model.v Opt/Syntax.vos Generated/C11_Passes.vos
+Opt/Proofs.vo Opt/Proofs.glob Opt/Proofs.v.beautified Opt/Proofs.required_vo: Opt/Proofs.v Opt/Syntax.vo Generated/C11_Passes.vo Opt/Model.vo Opt/Spec.vo
+Opt/Proofs.vio: Opt/Proofs.v Opt/Syntax.vio Generated/C11_Passes.vio Opt/Model.vio Opt/Spec.vio
+Opt/Proofs.vos Opt/Proofs.vok Opt/Proofs.required_vos: Opt/Proofs.v Opt/Syntax.vos Generated/C11_Passes.vos Opt/Model.vos Opt/Spec.vos
+Opt/Spec.vo Opt/Spec.glob Opt/Spec.v.beautified Opt/Spec.required_vo: Opt/Spec.v Opt/Syntax.vo Generated/C11_Passes.vo Opt/Model.vo
+Opt/Spec.vio: Opt/Spec.v Opt/Syntax.vio Generated/C11_Passes.vio Opt/Model.vio
+Opt/Spec.vos Opt/Spec.vok Opt/Spec.required_vos: Opt/Spec.v Opt/Syntax.vos Generated/C11_Passes.vos Opt/Model.vos
 Opt/Syntax.vo Opt/Syntax.glob Opt/Syntax.v.beautified Opt/Syntax.required_vo: Opt/Syntax.v 
 Opt/Syntax.vio: Opt/Syntax.v 
 Opt/Syntax.vos Opt/Syntax.vok Opt/Syntax.required_vos: Opt/Syntax.v 
 Plan/Model.vo Plan/Model.glob Plan/Model.v.beautified Plan/Model.required_vo: Plan/Model.v 
 Plan/Model.vio: Plan/Model.v 
 Plan/Model.vos Plan/Model.vok Plan/Model.required_vos: Plan/Model.v 
+Plan/Proofs.vo Plan/Proofs.glob Plan/Proofs.v.beautified Plan/Proofs.required_vo: Plan/Proofs.v Plan/Model.vo
+Plan/Proofs.vio: Plan/Proofs.v Plan/Model.vio
+Plan/Proofs.vos Plan/Proofs.vok Plan/Proofs.required_vos: Plan/Proofs.v Plan/Model.vos
 Print/Model.vo Print/Model.glob Print/Model.v.beautified Print/Model.required_vo: Print/Model.v 
 Print/Model.vio: Print/Model.v 
 Print/Model.vos Print/Model.vok Print/Model.required_vos: Print/Model.v 
+Print/Proofs.vo Print/Proofs.glob Print/Proofs.v.beautified Print/Proofs.required_vo: Print/Proofs.v Print/Model.vo
+Print/Proofs.vio: Print/Proofs.v Print/Model.vio
+Print/Proofs.vos Print/Proofs.vok Print/Proofs.required_vos: Print/Proofs.v Print/Model.vos
+Props/C07.vo Props/C07.glob Props/C07.v.beautified Props/C07.required_vo: Props/C07.v Typegraph/Graph.vo Typegraph/Solver.vo
+Props/C07.vio: Props/C07.v Typegraph/Graph.vio Typegraph/Solver.vio
+Props/C07.vos Props/C07.vok Props/C07.required_vos: Props/C07.v Typegraph/Graph.vos Typegraph/Solver.vos
 Props/C08.vo Props/C08.glob Props/C08.v.beautified Props/C08.required_vo: Props/C08.v Typegraph/History.vo Typegraph/HistoryProofs.vo Generated/C08_Invalidation.vo
 Props/C08.vio: Props/C08.v Typegraph/History.vio Typegraph/HistoryProofs.vio Generated/C08_Invalidation.vio
 Props/C08.vos Props/C08.vok Props/C08.required_vos: Props/C08.v Typegraph/History.vos Typegraph/HistoryProofs.vos Generated/C08_Invalidation.vos
 Props/C09.vo Props/C09.glob Props/C09.v.beautified Props/C09.required_vo: Props/C09.v Typegraph/Reach.vo Typegraph/ReachProofs.vo
 Props/C09.vio: Props/C09.v Typegraph/Reach.vio Typegraph/ReachProofs.vio
 Props/C09.vos Props/C09.vok Props/C09.required_vos: Props/C09.v Typegraph/Reach.vos Typegraph/ReachProofs.vos
+Props/C10.vo Props/C10.glob Props/C10.v.beautified Props/C10.required_vo: Props/C10.v Mro/Model.vo Mro/Proofs.vo
+Props/C10.vio: Props/C10.v Mro/Model.vio Mro/Proofs.vio
+Props/C10.vos Props/C10.vok Props/C10.required_vos: Props/C10.v Mro/Model.vos Mro/Proofs.vos
 Props/C13.vo Props/C13.glob Props/C13.v.beautified Props/C13.required_vo: Props/C13.v Bind/Model.vo Bind/Proofs.vo
 Props/C13.vio: Props/C13.v Bind/Model.vio Bind/Proofs.vio
 Props/C13.vos Props/C13.vok Props/C13.required_vos: Props/C13.v Bind/Model.vos Bind/Proofs.vos
+Props/C15.vo Props/C15.glob Props/C15.v.beautified Props/C15.required_vo: Props/C15.v Io/Model.vo Generated/C15_Handlers.vo Io/Proofs.vo Io/LineProofs.vo
+Props/C15.vio: Props/C15.v Io/Model.vio Generated/C15_Handlers.vio Io/Proofs.vio Io/LineProofs.vio
+Props/C15.vos Props/C15.vok Props/C15.required_vos: Props/C15.v Io/Model.vos Generated/C15_Handlers.vos Io/Proofs.vos Io/LineProofs.vos
 Props/C17.vo Props/C17.glob Props/C17.v.beautified Props/C17.required_vo: Props/C17.v Booleq/Model.vo Booleq/Proofs.vo
 Props/C17.vio: Props/C17.v Booleq/Model.vio Booleq/Proofs.vio
 Props/C17.vos Props/C17.vok Props/C17.required_vos: Props/C17.v Booleq/Model.vos Booleq/Proofs.vos
@@ -118,6 +166,9 @@ Props/C18.vos Props/C18.vok Props/C18.required_vos: Props/C18.v Flow/Model.vos F
 Serial/Model.vo Serial/Model.glob Serial/Model.v.beautified Serial/Model.required_vo: Serial/Model.v 
 Serial/Model.vio: Serial/Model.v 
 Serial/Model.vos Serial/Model.vok Serial/Model.required_vos: Serial/Model.v 
+Serial/Proofs.vo Serial/Proofs.glob Serial/Proofs.v.beautified Serial/Proofs.required_vo: Serial/Proofs.v Serial/Model.vo
+Serial/Proofs.vio: Serial/Proofs.v Serial/Model.vio
+Serial/Proofs.vos Serial/Proofs.vok Serial/Proofs.required_vos: Serial/Proofs.v Serial/Model.vos
 Typegraph/Graph.vo Typegraph/Graph.glob Typegraph/Graph.v.beautified Typegraph/Graph.required_vo: Typegraph/Graph.v 
 Typegraph/Graph.vio: Typegraph/Graph.v 
 Typegraph/Graph.vos Typegraph/Graph.vok Typegraph/Graph.required_vos: Typegraph/Graph.v 
